@@ -146,11 +146,8 @@ func ErrClass(s string) string {
 		for k < len(s) && s[k] >= '0' && s[k] <= '9' {
 			k++
 		}
-		// only the bare error counts as "carries that error"
-		if i == 0 && k == len(s) {
-			return "env:" + s[j:k]
-		}
-		return "wrapped-env:" + s[j:k]
+		// the text of the tree's error reaches the caller (possibly re-wrapped)
+		return "env:" + s[j:k]
 	}
 	return "run"
 }
